@@ -204,3 +204,33 @@ def norm(subject, op, other):
         elif op == "<=":
             op, other = "<", other + 1
     return "%s %s %s" % (subject, op, other)
+
+
+def checks_deep(prog, f, depth=2, _seen=None):
+    """validation checks of f and of the local helper functions it calls (one copy per call site), so that extracting a check
+    into a private helper does not make it disappear; entries from helpers carry `via` = the helper's path and `bb` of the
+    call site in f"""
+    out = list(checks(f))
+    if depth <= 0:
+        return out
+    _seen = (_seen or set()) | {f.path}
+    crate = f.path.lstrip("<&").split("::")[0]
+    for b, t in f.calls():
+        c = callee(t)
+        if not c:
+            continue
+        name = c.get("res", c["fn"])
+        g = prog.fn(name) or prog.fn(c["fn"])
+        if g is None or g.path in _seen or g.crate != f.crate or g.kind == "Promoted":
+            continue
+        if len(g.blocks) > 250:
+            continue
+        for cc in checks_deep(prog, g, depth - 1, _seen):
+            d = dict(cc)
+            d["via"] = cc.get("via") or g.path
+            d["bb"] = b
+            d["pos"] = t[-2]
+            d["subject_local"] = None
+            d["other_local"] = None
+            out.append(d)
+    return out
